@@ -21,6 +21,7 @@ pub mod c13;
 pub mod c15;
 pub mod c16;
 pub mod c18;
+pub mod history;
 
 pub const ASSUME_REF: &str = "oracle = independent spec-literal FIPS 204 reference (validated at start-up on the 75 keyGen / 60 sigGen / 45 sigVer ACVP vectors and one external pure-mode KAT); the HashML-DSA wrapper (Algorithms 4/5: domain byte, OIDs, digest lengths) is validated by review only";
 
@@ -50,6 +51,9 @@ pub fn run(id: &str, ctx: &Ctx) -> Option<Report> {
 
 /// Re-execute one saved case without the generator library. `None`: unknown property / sub-check.
 pub fn replay(id: &str, ctx: &Ctx, sub: &str, case: &Value) -> Option<CheckResult> {
+    if sub == history::SUB {
+        return Some(history::replay(id, case));
+    }
     match id {
         "C01" => c01::replay(ctx, sub, case),
         "C02" => c02::replay(ctx, sub, case),
@@ -68,6 +72,20 @@ pub fn replay(id: &str, ctx: &Ctx, sub: &str, case: &Value) -> Option<CheckResul
         "C16" => c16::replay(ctx, sub, case),
         "C18" => c18::replay(ctx, sub, case),
         _ => None,
+    }
+}
+
+/// (set index, corpus index) for every `corpus/xof_extremes` seed, paired with the set it was searched for
+pub fn rare_seed_cases() -> Vec<(u8, u16)> {
+    crate::gen::xof_corpus().iter().enumerate().map(|(i, e)| (match e.set { 44 => 0u8, 65 => 1, _ => 2 }, i as u16)).collect()
+}
+
+/// evidence for the rare-seed sub-checks: the most extreme events in the corpus
+pub fn rare_seed_maxima(st: &mut crate::engine::Stats) {
+    for e in crate::gen::xof_corpus() {
+        st.maximum(&format!("expand_a_max_rejections_in_one_entry_set{}", e.set), i64::from(e.max_rej_entry));
+        st.maximum(&format!("expand_a_candidate_equal_q_at_block_end_set{}", e.set), i64::from(e.q_at_block_end));
+        st.maximum(&format!("expand_s_max_bytes_for_one_polynomial_set{}", e.set), i64::from(e.max_bytes_s));
     }
 }
 
@@ -104,3 +122,64 @@ pub fn g_sign(sk: &dyn SkObj, rng: &mut TestRng, m: &[u8], ctx: &[u8], mode: Mod
 }
 
 pub fn g<T>(op: &str, f: impl FnOnce() -> T) -> Result<T, Fail> { guarded(f).map_err(|p| Fail::panic(op, &p)) }
+
+// ---------------------------------------------------------------------------------------------
+// Process history. The properties quantify over inputs, not over what the process did before; a
+// library with sticky state (an error latch, a memo of its last input, a health-test fingerprint)
+// breaks them only after a particular earlier call. Every `vcheck run` / `replay` therefore starts
+// with this fixed sequence of ordinary API calls: failing generators, over-long contexts, malformed
+// and junk inputs. Results are ignored (each call is judged in its own property); panics are swallowed.
+
+pub fn history_prelude() -> usize {
+    use crate::libapi::{libs, Fault, ERR_CODES};
+    use crate::refmodel::MODES;
+    let mut calls = 0usize;
+    for (n, lib) in libs().into_iter().enumerate() {
+        let p = lib.p();
+        let xi = [0x5Au8 ^ n as u8; 32];
+        let stream = [0xA5u8; 64];
+        let Ok((pk, sk)) = guarded(|| lib.keygen_from_seed(&xi)) else { continue };
+        let long_ctx = vec![7u8; 256 + 13 * n];
+        for (k, code) in ERR_CODES.iter().enumerate() {
+            for faults in [vec![Fault::ErrBefore], vec![Fault::ErrAfter(16)], vec![Fault::ErrAfter(32)]] {
+                let mut r = TestRng::with_faults(&stream, faults.clone(), false);
+                r.err_code = *code;
+                let _ = guarded(|| lib.keygen_with_rng(&mut r).is_ok());
+                let mut r = TestRng::with_faults(&stream, faults.clone(), false);
+                r.err_code = *code;
+                let _ = guarded(|| lib.keygen_with_rng_modfn(&mut r).is_ok());
+                let mode = MODES[k % 4];
+                let mut r = TestRng::with_faults(&stream, faults.clone(), false);
+                r.err_code = *code;
+                let _ = guarded(|| sk.sign(&mut r, b"history", b"", mode).is_ok());
+                // failing generator and over-long context together
+                let mut r = TestRng::with_faults(&stream, faults, false);
+                r.err_code = *code;
+                let _ = guarded(|| sk.sign(&mut r, b"history", &long_ctx, mode).is_ok());
+                calls += 4;
+            }
+        }
+        for mode in MODES {
+            let mut r = TestRng::replay(&stream);
+            let _ = guarded(|| sk.sign(&mut r, b"history", &long_ctx, mode).is_ok());
+            let _ = guarded(|| pk.verify(b"history", &vec![0xFF; p.sig_len], &long_ctx, mode));
+            let _ = guarded(|| pk.verify(b"history", &vec![0u8; p.sig_len], b"", mode));
+            // the same rnd twice in a row
+            for _ in 0..2 {
+                let mut r = TestRng::replay(&stream);
+                let _ = guarded(|| sk.sign(&mut r, b"history", b"c", mode).is_ok());
+            }
+            calls += 5;
+        }
+        let _ = guarded(|| sk.internal_sign(b"history", b"", [0u8; 32]).is_ok());
+        let _ = guarded(|| pk.internal_verify(b"history", &vec![0x11; p.sig_len], b""));
+        let _ = guarded(|| lib.sk_from_bytes(&vec![0xFF; p.sk_len]).is_ok());
+        let _ = guarded(|| lib.sk_from_bytes(&vec![0u8; p.sk_len]).is_ok());
+        let _ = guarded(|| lib.pk_from_bytes(&vec![0xFF; p.pk_len]).is_ok());
+        let _ = guarded(|| lib.pk_from_bytes(&vec![0u8; p.pk_len]).is_ok());
+        let _ = guarded(|| lib.keygen_os().is_ok());
+        let _ = guarded(|| sk.sign_os(b"history", b"", Mode::Pure).is_ok());
+        calls += 8;
+    }
+    calls
+}
